@@ -32,6 +32,13 @@ func TestBitsTranspose(t *testing.T) {
 	vlib.Check(t, 320, func(t *rapid.T) {
 		rows := 8 * rapid.SampledFrom([]int{1, 2, 3, 7, 8, 8, 9, 16, 16, 16, 24}).Draw(t, "rowsOver8")
 		colBytes := rapid.SampledFrom([]int{1, 2, 3, 7, 8, 8, 9, 16, 24, 32, 33}).Draw(t, "colBytes")
+		if rapid.IntRange(1, 16).Draw(t, "bigMatrix") == 16 {
+			// TransposePackedBits has no size limit (64x64 block path when rows % 64 == 0 and every
+			// row has a multiple of 8 bytes, bit-by-bit path otherwise); the extension transposes
+			// 128 x (xi*L) matrices with xi*L in the thousands: a few shapes of that size
+			rows = 8 * rapid.SampledFrom([]int{16, 32, 33, 64, 65}).Draw(t, "rowsOver8Big")
+			colBytes = rapid.SampledFrom([]int{64, 65, 128, 512, 513}).Draw(t, "colBytesBig")
+		}
 		class := rapid.SampledFrom([]string{"drawn", "drawn", "drawn", "one1", "one0", "row", "col"}).Draw(t, "content")
 		m := make([][]byte, rows)
 		pi, pj := rapid.IntRange(0, rows-1).Draw(t, "pi"), rapid.IntRange(0, colBytes*8-1).Draw(t, "pj")
